@@ -16,6 +16,7 @@ fi
 git -C /repo apply "$PATCH" || { echo "patch does not apply"; exit 2; }
 trap 'git -C /repo checkout -- . ; echo "[/repo reverted]"' EXIT
 export LLSIM_ROOT=/verif/sim/target/seeded-out
+export LLSIM_REPLAY_BIN=/verif/sim/target/eval/release/replay
 mkdir -p "$LLSIM_ROOT"; cp /verif/known_findings.json "$LLSIM_ROOT/"
 for c in "${CHECKS[@]}"; do
   START=$(date +%s)
